@@ -20,6 +20,7 @@ class Report:
         self.incomplete = []
         self.seed = int(os.environ.get('VERIF_SEED', '0') or 0)
         self.extra = {}
+        self.write_evidence = True
         try:
             with open(os.path.join(VERIF, 'known_findings.json')) as f:
                 self.known = json.load(f)['findings']
@@ -84,9 +85,10 @@ class Report:
             'violations': len(new),
         }
         ev['coverage'].update(self.extra)
-        os.makedirs(os.path.join(VERIF, 'evidence'), exist_ok=True)
-        with open(os.path.join(VERIF, 'evidence', self.pid + '.json'), 'w') as f:
-            json.dump(ev, f, indent=1, default=str)
+        if self.write_evidence:
+            os.makedirs(os.path.join(VERIF, 'evidence'), exist_ok=True)
+            with open(os.path.join(VERIF, 'evidence', self.pid + '.json'), 'w') as f:
+                json.dump(ev, f, indent=1, default=str)
         print('%s [%s] obligations=%d holds=%d violated=%d (known %d) undecided=%d wall=%.1fs' %
               (self.pid, self.tier, len(self.obs), len(held), len(viol), len(known), len(und), wall))
         for r, c in sorted(rules.items()):
